@@ -100,13 +100,14 @@ _TZM030 = _dt.timezone(-_dt.timedelta(minutes=30))
 
 POOLS = {
     "str": {
-        "s1": ["s1", 'say "hi"', "a\\b", "l1\nl2", "ü<&>'", " lead ", "tab\there", "中文 \U0001F600"],
+        "s1": ["s1", 'say "hi"', "a\\b", "l1\nl2", "ü<&>'", " lead ", "tab\there", "中文 \U0001F600",
+               "two  blanks   in a row"],
         "s2": ["s2", "x=1, y=[2]", "'single'", "semi;colon", "%% @en", "\\\\server\\share", "q\"\"\"q"],
         "e": [""],
         "n1": ["1"],          # a string with the text of the int 1 (same text, other kind)
         # quoting hazards: multi-line AND quotes, trailing quote / backslash, lone specials
         "nq": ['l1\nl2"', 'a\n"""b', '"', "\\", "ends\\", 'x\n\\"y\n', "<b>&amp;</b>", 'tab\t"q"', "''' '",
-               "a<b & c>", "<i>x</i>", "R&D <tag/>"],
+               "a<b & c>", "<i>x</i>", "R&D <tag/>", "x  y\n  z"],
     },
     "int": {"0": [0], "1": [1], "7": [7, -1, 2 ** 31, 2 ** 70, -(2 ** 63), 12345678901234567890]},
     "float": {"0": [0.0], "1": [1.0],
